@@ -13,11 +13,16 @@ ASSUME = [
     "explanation test for the known finding: a final location that is not covered although the request traverses a symlink that an earlier request already traversed is classified 'explainedByLinkMemoisation'",
 ]
 EXPL = {"C18.finalLocationNotCovered/explainedByLinkMemoisation", "C18.rootReachedButListNotEmpty/explainedByLinkMemoisation",
-        "C18.traversedSymlinkNotCovered/explainedByLinkMemoisation", "C18.requestResolvesDifferentlyAfterTransfer"}
+        "C18.traversedSymlinkNotCovered/explainedByLinkMemoisation", "C18.requestResolvesDifferentlyAfterTransfer",
+        "C18.wildcardExpansionResolvesDifferentlyAfterTransfer/explainedByLinkMemoisation"}
+OVERDIR = "C18.wildcardExpansionResolvesDifferentlyAfterTransfer/explainedByWildcardOverDirectory"
 
 
 def _sig(evs, clauses):
-    if set(clauses) <= EXPL and any("explainedByLinkMemoisation" in c for c in clauses):
+    cl = set(clauses)
+    if cl == {OVERDIR}:
+        return "follow:wildcard-over-directory-keeps-pattern"
+    if cl - {OVERDIR} <= EXPL and any("explainedByLinkMemoisation" in c for c in cl):
         return "follow:link-memoisation-drops-final-location"
     return None
 
